@@ -1,6 +1,6 @@
 //! C18 — GPS time-of-week → UTC time-of-day; start of GPS week.
 use crate::common::*;
-use rs1090::decode::time::{gps_week_in_s, since_gps_week_to_since_today};
+use rs1090::decode::time::{gps_week_in_s, now_in_ns, now_in_s, since_gps_week_to_since_today, since_gps_week_to_unix_s, since_today_to_nanos, today_in_s};
 
 const DAY_NS: i128 = 86_400_000_000_000;
 const WEEK_NS: u64 = 604_800_000_000_000;
@@ -52,11 +52,57 @@ fn week(out: &mut Out, now: u64) {
     }
 }
 
+/// start of the UTC day (u128 seconds): the third pure function of time.rs (Beast time stamps are counted from it)
+fn today(out: &mut Out, now: u128) {
+    let r = guarded(|| today_in_s(now));
+    let imp = match r {
+        Some(v) => format!("ok {v}"),
+        None => "panic".into(),
+    };
+    out.case(&format!("today {now}"), &imp);
+    match r {
+        None => out.fail("today-panic", &format!("today {now}"), "start of day panicked"),
+        Some(d) => {
+            if !(d <= now && now - d < 86_400 && d % 86_400 == 0) {
+                out.fail("today-value", &format!("today {now}"), &format!("got {d}"));
+            }
+        }
+    }
+    out.stat("today");
+}
+
+/// The two functions that read the wall clock (`since_gps_week_to_unix_s`, used by sero::receiver, and
+/// `since_today_to_nanos`, used for Beast time stamps) are the pure ones composed with `now`: called between two
+/// clock readings, their answer must be the composition for one of the (at most two) readings in between.
+/// Oracle only — the model has no clock.
+fn clocked(out: &mut Out, t: u64) {
+    let before = now_in_s();
+    let r = guarded(|| (since_gps_week_to_unix_s(t), since_today_to_nanos(t as u128)));
+    let after = (now_in_ns() / 1_000_000_000) as u64;
+    let input = format!("clocked {t}");
+    match r {
+        None => out.fail("clocked-panic", &input, "a clock-reading conversion panicked"),
+        Some((unix, nanos)) => {
+            let ok_w = (before..=after).any(|n| gps_week_in_s(n) as f64 + t as f64 * 1e-9 == unix);
+            let ok_d = (before..=after).any(|n| today_in_s(n as u128) * 1_000_000_000 + t as u128 == nanos);
+            if !ok_w {
+                out.fail("clocked-week", &input, &format!("since_gps_week_to_unix_s gave {unix} between clock readings {before} and {after}"));
+            }
+            if !ok_d {
+                out.fail("clocked-day", &input, &format!("since_today_to_nanos gave {nanos} between clock readings {before} and {after}"));
+            }
+        }
+    }
+    out.stat("clocked");
+}
+
 pub fn one(out: &mut Out, line: &str) {
     let p: Vec<&str> = line.split_whitespace().collect();
     match p.as_slice() {
         ["gps", t] => gps(out, t.parse().unwrap()),
         ["week", t] => week(out, t.parse().unwrap()),
+        ["today", t] => today(out, t.parse().unwrap()),
+        ["clocked", t] => clocked(out, t.parse().unwrap()),
         _ => out.notes.push(format!("bad replay line: {line}")),
     }
 }
@@ -99,6 +145,23 @@ pub fn run(out: &mut Out, rng: &mut Rng, thorough: bool) {
         let wk = rng.below((y2100 - GPS_OFFSET) / 604_800);
         let b = GPS_OFFSET - LEAP + wk * 604_800;
         week(out, (b as i64 + rng.range(-20, 20)) as u64);
+    }
+    // start of day: day boundaries +- 2 s between 1970 and 2100, random, and the u128 edge (the product overflows
+    // nowhere: 86400 * (n / 86400) <= n)
+    for _ in 0..1000 * k {
+        let day = rng.below(47_500) as u128;
+        today(out, (day + 1) * 86_400 + rng.below(5) as u128 - 2);
+        today(out, rng.below(y2100) as u128);
+    }
+    for now in [0u128, 1, 86_399, 86_400, 86_401, u64::MAX as u128, u64::MAX as u128 + 1, u128::MAX, u128::MAX - 86_400] {
+        today(out, now);
+    }
+    // the clock-reading compositions (oracle only)
+    for _ in 0..300 * k {
+        clocked(out, rng.below(WEEK_NS));
+    }
+    for t in [0, 1, 18_000_000_000, WEEK_NS - 1, WEEK_NS] {
+        clocked(out, t);
     }
     for now in [0, 1, GPS_OFFSET - 19, GPS_OFFSET - 18, GPS_OFFSET - 1, GPS_OFFSET, GPS_OFFSET + 1, u64::MAX, (1u64 << 63) - 1] {
         week(out, now);
